@@ -2371,6 +2371,42 @@ def M_write_fmt_to_buffer(it, ctx, args, st):
         yield s2, it.ok(UNIT)
 
 
+def _pinned_coro(st, args):
+    p = args[0]
+    v = st.deref_all(p.fields[0]) if isinstance(p, Agg) and p.name == 'Pin' and p.fields and isinstance(p.fields[0], Ptr) else None
+    from .values import Coro as _Coro
+    return v if isinstance(v, _Coro) else None
+
+
+def _coro_body(it, v):
+    """the MIR function of a coroutine value named by its source span ({coroutine@file:l:c: l:c (#0)})"""
+    import re as _re
+    m = _re.match(r'\{coroutine@(.+?):(\d+):(\d+): (\d+):(\d+)', v.name)
+    if not m:
+        return None
+    want = (m.group(1),) + tuple(int(x) for x in m.groups()[1:])
+    c = [n for n, f in it.p.fns.items() if '{closure#' in n and f.span and tuple(f.span) == want]
+    return c[0] if len(c) == 1 else None
+
+
+def is_opaque_async_fn_future(it, ctx, args, st):
+    v = _pinned_coro(st, args)
+    return v is not None and (v.name.startswith('{async fn body of') or v.name in st.aux.get('coro_body', {}) or _coro_body(it, v) is not None)
+
+
+def M_poll_opaque_future(it, ctx, args, st):
+    """poll of an `impl Future` whose value is the coroutine of a repository async fn: dispatch on that value"""
+    v = _pinned_coro(st, args)
+    body = st.aux.get('coro_body', {}).get(v.name) or _coro_body(it, v)
+    if body is not None:
+        tenv = st.aux.get('coro_tenv', {}).get(v.name, dict(ctx.fr.tenv))
+        yield from it.invoke(body, list(args), st, tenv, ctx.fr.depth + 1)
+        return
+    c2 = type('Callee', (), {'key': f'<{v.name} as std::future::Future>::poll'})()
+    ctx2 = type('C', (), {'callee': c2, 'fr': ctx.fr})()
+    yield from M_poll_async_body(it, ctx2, args, st)
+
+
 def M_char_to_string(it, ctx, args, st):
     c = args[0] if not isinstance(args[0], Ptr) else st.deref_all(args[0])
     if not it.feasible(st, z3.ULT(c, 128)) or it.feasible(st, z3.UGE(c, 128)):
@@ -2513,6 +2549,7 @@ MODELS = [
     (r'<' + P + r'string::String as ' + P + r'convert::From<char>>::from', M_char_to_string),
     (r'<' + P + r'option::Option<.*> as ' + P + r'cmp::PartialEq>::eq', M_prim_eq), (r'<' + P + r'option::Option<.*> as ' + P + r'cmp::PartialEq>::ne', M_prim_ne),
     (r'<\{async fn body of .*\} as (?:futures_core|std::future|core::future)::Future>::poll', M_poll_async_body),
+    (r'<impl .*Future<.*>.* as (?:futures_core|std::future|core::future)::Future>::poll', M_poll_opaque_future, is_opaque_async_fn_future),
     (r'<' + P + r'boxed::Box<dyn .*> as ' + P + r'convert::From<.*>>::from', M_identity),
     (P + r'iter::empty::<.*>', lambda it, ctx, args, st: iter([(st, It('list', ()))])),
     (r'<char as ' + P + r'string::ToString>::to_string', M_char_to_string),
